@@ -100,7 +100,8 @@ def coq_make(targets, timeout=1500):
     cp = os.path.join(COQ, "_CoqProject")
     if not os.path.exists(mk) or os.path.getmtime(mk) < os.path.getmtime(cp):
         sh(["coq_makefile", "-f", "_CoqProject", "-o", "Makefile"], cwd=COQ)
-    rc, out = sh(["make", "-j16"] + targets, cwd=COQ, timeout=timeout)
+    # every coqc under a time limit of its own: one file that hangs must not hold up the rest of the build
+    rc, out = sh(["make", "-j16", "COQC=timeout %d coqc" % int(os.environ.get("VERIF_COQC_TIMEOUT", "900"))] + targets, cwd=COQ, timeout=timeout)
     return rc == 0, out
 
 
